@@ -113,13 +113,18 @@ def run_property(mod, tier="quick", seed=0, replay=None):
     known_ids = {f["id"]: f for f in known}
     nontrivial, disagreements, oracle_fail = set(), [], []
     kinds = {}
+    # optional hook: a model line that carries the outcome of both build profiles
+    # (`debug|release`) is projected to the profile the implementation was built with
+    # for the comparison; known_class always receives the unprojected model line
+    mview = getattr(mod, "model_view", lambda ml, p: ml)
     for p in profiles:
-        for i, (c, il, ml) in enumerate(zip(cases, impl[p], model)):
+        for i, (c, il, ml0) in enumerate(zip(cases, impl[p], model)):
+            ml = mview(ml0, p)
             k = il.split(" ", 1)[0] if il else "EMPTY"
             kinds[k] = kinds.get(k, 0) + 1
             if mod.nontrivial(c, il):
                 nontrivial.add(C.digest(c))
-            fid = mod.known_class(c, il, ml) if hasattr(mod, "known_class") else None
+            fid = mod.known_class(c, il, ml0) if hasattr(mod, "known_class") else None
             if fid is not None and fid in known_ids:
                 rep.known(fid, known_ids[fid]["what"])
                 continue
@@ -186,7 +191,7 @@ def run_property(mod, tier="quick", seed=0, replay=None):
             i, p = disagreements[0]
 
             def differs(c, a, b):
-                return a != b
+                return a != mview(b, sorted(impl_exes)[0])
             sc = shrink_case(mod, ctx, cases[i], differs)
             broken.append("correspondence %s: implementation and model differ on %d case(s)"
                           % (getattr(mod, "CORRESPONDENCE", pid), len(disagreements)))
